@@ -278,6 +278,12 @@ for _p, _h in (("C04", [dict(name="ratio_in_unit_interval", crate="leaves", harn
                ("C02", [dict(name="weighted_lt_limit_implies_room", crate="leaves", harness="weighted_lt_limit_implies_room", tags=["C02"],
                              claim="(previous as f64 * w) + current as f64 < limit as f64 implies current < limit, for all usize and w in [0,1] (the contract Verus assumes for the lifted admit leaf)")]),
                ("C15", [])):
+    pass
+_EST = dict(name="estimate_wait_positive_when_full_small", crate="leaves", harness="estimate_wait_positive_when_full_small", tags=["C02", "C15"],
+            bounded="previous_count in 0..=3 (enumerated), limit_for_period in 1..=4, current_count <= limit, bucket = 1 s, elapsed/bucket in [0, 0.999999] symbolic f64",
+            claim="BOUNDED: when no slot is free the sliding counter's wait estimate is >= 1 microsecond of a 1 s bucket, so Ok(ZERO) is only ever returned together with a counted admission "
+                  "(the unbounded harness estimate_wait_positive_when_full does not close in 20 min and stays a named assumption)")
+for _p, _h in (("C02", [_EST]), ("C15", [_EST])):
     PROPS[_p]["kani"] = PROPS[_p].get("kani", []) + _h
 
 PROPS["C20"] = dict(
